@@ -348,6 +348,38 @@ void prop_huge(const Case& cs) {
   VF_CHECK(again.size() == bytes.size() && std::memcmp(again.data(), bytes.data(), bytes.size()) == 0, "huge-roundtrip-bytes", "re-serialized image differs");
   vf::label("huge"); vf::nontrivial();
 }
+// The merged-form estimate over the estimator's whole range: for every lg_k 4..15 and coupon densities C/k from 0.5 to 6.5 (both sides of the
+// polynomial / exponential switch at 5.6-5.7) a union of two overlapping streams sized by the reference estimator; the result's estimate
+// must be the ICON value of (lg_k, C): the library's own function AND the independent reference (inverse of the expected coupon count).
+void prop_icon_band(const Case& cs) {
+  const int lg_k = static_cast<int>(std::min<int64_t>(15, std::max<int64_t>(4, cs.get("lg_k", 4))));
+  const double dens = static_cast<double>(cs.get("dens1000", 1000)) / 1000.0;
+  const uint64_t k = 1ull << lg_k;
+  const uint64_t n = static_cast<uint64_t>(vf::ref_icon(lg_k, dens * static_cast<double>(k)));
+  const uint64_t base = vf::mix64(static_cast<uint64_t>(lg_k) * 1000003ull + static_cast<uint64_t>(cs.get("dens1000", 1000))) >> 8;
+  cpc_sketch a(static_cast<uint8_t>(lg_k)), c(static_cast<uint8_t>(lg_k));
+  for (uint64_t i = 0; i < n; ++i) { if (i < 2 * n / 3) a.update(base + i); if (i >= n / 3) c.update(base + i); }
+  cpc_union u(static_cast<uint8_t>(lg_k)); u.update(a); u.update(c);
+  cpc_sketch r = u.get_result();
+  const uint32_t C = r.get_num_coupons();
+  VF_CHECK(r.validate(), "union-validate", "lg_k " << lg_k << ": validate() failed on the union result");
+  VF_CHECK(r.get_estimate() == compute_icon_estimate(static_cast<uint8_t>(lg_k), C), "merged-estimate", "lg_k " << lg_k << " C " << C << ": merged estimate " << r.get_estimate() << " is not icon(lg_k, C)");
+  const double ref = vf::ref_icon(lg_k, static_cast<double>(C));
+  VF_CHECK(std::fabs(r.get_estimate() - ref) <= vf::ref_icon_tolerance(ref), "merged-estimate-vs-reference", "lg_k " << lg_k << " C " << C << " (C/k = " << static_cast<double>(C) / k << "): merged estimate " << r.get_estimate() << ", reference " << ref << " (tolerance " << vf::ref_icon_tolerance(ref) << ")");
+  for (unsigned kappa = 1; kappa <= 3; ++kappa) VF_CHECK(r.get_lower_bound(kappa) <= r.get_estimate() && r.get_estimate() <= r.get_upper_bound(kappa), "bounds-order", "lg_k " << lg_k << " C " << C << ": bounds at kappa " << kappa);
+  vf::label("icon-band"); vf::nontrivial();
+}
+void enum_icon_band(std::function<bool(const Case&)> run) {
+  long w = vf::env_long("VF_WORKER", 0), nw = std::max<long>(1, vf::env_long("VF_NWORKERS", 1));
+  long idx = 0;
+  for (int lg_k = 4; lg_k <= 15; ++lg_k)
+    for (int d : {500, 2000, 4000, 4600, 5000, 5300, 5550, 5650, 5750, 6100, 6500}) {
+      if ((idx++ % nw) != w) continue;
+      Case c; c.set("lg_k", lg_k); c.set("dens1000", d);
+      if (!run(c)) return;
+    }
+}
+
 void enum_huge(std::function<bool(const Case&)> run) {
   if (vf::env("VF_TIER") != "thorough") return;
   long w = vf::env_long("VF_WORKER", 0);
@@ -402,5 +434,5 @@ int main(int argc, char** argv) {
                          "after EVERY update, and validate + re-offering all items to a copy after every op / at every flavor or window-offset change; "
                          "union sub: 2..5 input sketches with unequal lg_k in generated orders, lvalue/rvalue, intermediate results, permuted replay, "
                          "round trip of the result. non-trivial = window offset >= 1 reached (sketch) or inputs with unequal lg_k (union); distinct = distinct case text",
-                         {{"sketch", gen_sketch, prop_sketch, 0.6}, {"deep", gen_deep, prop_sketch, 0.02, 60}, {"large", gen_large, prop_sketch, 0.04, 60}, {"union", gen_union, prop_union, 0.4}, vf::Sub{"huge", nullptr, prop_huge, 1.0, -1, enum_huge}});
+                         {{"sketch", gen_sketch, prop_sketch, 0.6}, {"deep", gen_deep, prop_sketch, 0.02, 60}, {"large", gen_large, prop_sketch, 0.04, 60}, {"union", gen_union, prop_union, 0.4}, vf::Sub{"huge", nullptr, prop_huge, 1.0, -1, enum_huge}, vf::Sub{"icon_band", nullptr, prop_icon_band, 1.0, -1, enum_icon_band}});
 }
